@@ -34,6 +34,34 @@ Example C39_roundtrip_Ix :
   parse_block rd_plain (write_block w_Ix) = PDone [([73; 120], [[118]])] 7 0 [] 4.
 Proof. exact Ix_roundtrip_lemma. Qed.
 
+(* Framer level, fixed-size control frames: what WriteFrame writes for a valid RST_STREAM / PING /
+   WINDOW_UPDATE / GOAWAY is read back by ReadFrame with the same fields (version 3, flags 0, the codec's
+   length), consuming exactly 8 + length bytes and leaving any following bytes `rest` untouched. *)
+Theorem C39_rst_stream_roundtrip : forall sid st rest cs,
+  0 < sid < 2^31 -> 0 < st < 2^32 ->
+  read_frame (st_at (fst (write_frame (FRst sid st)) ++ rest) 0 cs) =
+  (VL [VZ 3; VZ 3; VZ 0; VZ 8; VZ sid; VZ st], st_at rest 16 cs).
+Proof. exact rst_roundtrip. Qed.
+Print Assumptions C39_rst_stream_roundtrip.
+Theorem C39_ping_roundtrip : forall id rest cs,
+  0 < id < 2^32 ->
+  read_frame (st_at (fst (write_frame (FPing id)) ++ rest) 0 cs) =
+  (VL [VZ 6; VZ 3; VZ 0; VZ 4; VZ id], st_at rest 12 cs).
+Proof. exact ping_roundtrip. Qed.
+Print Assumptions C39_ping_roundtrip.
+Theorem C39_window_update_roundtrip : forall sid d rest cs,
+  0 <= sid < 2^31 -> 0 <= d < 2^31 ->
+  read_frame (st_at (fst (write_frame (FWindow sid d)) ++ rest) 0 cs) =
+  (VL [VZ 9; VZ 3; VZ 0; VZ 8; VZ sid; VZ d], st_at rest 16 cs).
+Proof. exact window_update_roundtrip. Qed.
+Print Assumptions C39_window_update_roundtrip.
+Theorem C39_goaway_roundtrip : forall last st rest cs,
+  0 <= last < 2^31 -> 0 <= st < 2^32 ->
+  read_frame (st_at (fst (write_frame (FGoAway last st)) ++ rest) 0 cs) =
+  (VL [VZ 7; VZ 3; VZ 0; VZ 8; VZ last; VZ st], st_at rest 16 cs).
+Proof. exact goaway_roundtrip. Qed.
+Print Assumptions C39_goaway_roundtrip.
+
 (* Allocation is not bounded by the input (known finding 2): a 12-byte block makes
    parseHeaderValueBlock request a buffer of 2^26 bytes (make([]byte, length) with the 32-bit length field). *)
 Theorem C39_alloc_refuted :
